@@ -121,13 +121,46 @@ func genCalls(ctx *Ctx, emit func(Case)) {
 		if k == 0 {
 			n = mib + 1
 		}
+		if k == 2 || k == 3 {
+			n = 0
+		}
 		signer, msg := r.Bytes(32), r.Bytes(n)
-		line := fmt.Sprintf("sig.signcalls %d 0 %s %s %d %s", major, keys.Hex(signer), randSigScript(r, -1, 0).Spec(), mib, keys.Hex(msg))
+		// how the plaintext reaches the signer: all-at-once, or the streaming
+		// entry point with some Write split (incl. "closed without any Write")
+		how := prng.Pick(r, "", "", " w=-1", " w=0", " w=1", " w=3.0.7", fmt.Sprintf(" w=%d", r.Intn(n+1)))
+		if k == 2 || k == 3 {
+			how = " w=-1"
+		}
+		// bound to fresh randomness: the same request under another header nonce
+		// must present the key with different inputs
+		fresh := func(c Case, other string) Case {
+			o1 := c.GoOut
+			l1 := c.Line
+			c.Predicate = func() string { return freshPredicate(l1, o1, other) }
+			prev := c.Direct
+			c.Direct = func() string {
+				if prev != nil {
+					if f := prev(); f != "" {
+						return f
+					}
+				}
+				return freshPredicate(l1, o1, other)
+			}
+			return c
+		}
+		wrapFresh := func(c Case, other string) {
+			wrap(c)
+			c2 := fresh(Case{Stream: c.Stream + ".fresh", Line: c.Line, GoOut: c.GoOut, Branch: c.Branch}, other)
+			emit(c2)
+		}
+		line := fmt.Sprintf("sig.signcalls %d 0 %s %s %d %s%s", major, keys.Hex(signer), randSigScript(r, -1, 0).Spec(), mib, keys.Hex(msg), how)
 		out := goExec(line)
-		wrap(Case{Stream: "calls.sig.attached", Line: line, GoOut: out, Branch: fmt.Sprintf("v%d/%s", major, sizeClass(n))})
-		line = fmt.Sprintf("sig.detcalls %d 0 %s %s %s", major, keys.Hex(signer), randSigScript(r, -1, 0).Spec(), keys.Hex(msg))
+		wrapFresh(Case{Stream: "calls.sig.attached", Line: line, GoOut: out, Branch: fmt.Sprintf("v%d/%s/%s", major, sizeClass(n), howClass(how))},
+			fmt.Sprintf("sig.signcalls %d 0 %s %s %d %s%s", major, keys.Hex(signer), randSigScript(r, -1, 0).Spec(), mib, keys.Hex(msg), how))
+		line = fmt.Sprintf("sig.detcalls %d 0 %s %s %s%s", major, keys.Hex(signer), randSigScript(r, -1, 0).Spec(), keys.Hex(msg), how)
 		out = goExec(line)
-		wrap(Case{Stream: "calls.sig.detached", Line: line, GoOut: out, Branch: fmt.Sprintf("v%d/%s", major, sizeClass(n))})
+		wrapFresh(Case{Stream: "calls.sig.detached", Line: line, GoOut: out, Branch: fmt.Sprintf("v%d/%s/%s", major, sizeClass(n), howClass(how))},
+			fmt.Sprintf("sig.detcalls %d 0 %s %s %s%s", major, keys.Hex(signer), randSigScript(r, -1, 0).Spec(), keys.Hex(msg), how))
 		rec := "b:" + keys.Hex(boxPub(r.Bytes(32)))
 		if r.Bool() {
 			rec = "s:" + keys.Hex(r.Bytes(32)) + ":" + keys.Hex(r.Bytes(32))
@@ -136,9 +169,9 @@ func genCalls(ctx *Ctx, emit func(Case)) {
 		if r.Intn(4) == 0 {
 			snd = "anon"
 		}
-		line = fmt.Sprintf("sc.signcalls %s %s %s %s %d %s", snd, rec, keys.Hex(r.Bytes(32)), keys.Hex(r.Bytes(32)), mib, keys.Hex(msg))
+		line = fmt.Sprintf("sc.signcalls %s %s %s %s %d %s%s", snd, rec, keys.Hex(r.Bytes(32)), keys.Hex(r.Bytes(32)), mib, keys.Hex(msg), how)
 		out = goExec(line)
-		wrap(Case{Stream: "calls.sc.sender", Line: line, GoOut: out, Branch: fmt.Sprintf("anon=%v/%s", snd == "anon", sizeClass(n))})
+		wrap(Case{Stream: "calls.sc.sender", Line: line, GoOut: out, Branch: fmt.Sprintf("anon=%v/%s/%s", snd == "anon", sizeClass(n), howClass(how))})
 	}
 }
 
@@ -488,4 +521,54 @@ func genFresh(ctx *Ctx, emit func(Case)) {
 		}
 		emit(Case{Stream: "fresh.realrand", Line: line, GoOut: "bad-op", Branch: "real", Trivial: k > 0, Direct: func() string { return dup }})
 	}
+}
+
+// howClass: branch label of a write-split suffix
+func howClass(how string) string {
+	switch {
+	case how == "":
+		return "oneshot"
+	case how == " w=-1":
+		return "stream-nowrite"
+	default:
+		return "stream"
+	}
+}
+
+// writeSplit: a random Write split for an n-byte plaintext ("" = all-at-once)
+func writeSplit(r *prng.R, n int) string {
+	if n >= mib {
+		return prng.Pick(r, "", fmt.Sprintf(" w=13.%d", mib+1), fmt.Sprintf(" w=%d.1", mib-1), fmt.Sprintf(" w=1.%d", mib), fmt.Sprintf(" w=%d.%d", r.Intn(50), mib+r.Intn(40)), " w=0.5.0")
+	}
+	return prng.Pick(r, "", "", " w=-1", " w=0", " w=1", " w=1.1.1", " w=3.0.7", fmt.Sprintf(" w=%d", r.Intn(n+1)), fmt.Sprintf(" w=%d.%d", r.Intn(n+1), r.Intn(n+1)))
+}
+
+// freshPredicate: C12's "bound to a header containing fresh randomness" — the
+// same signing request under a different header nonce must not present the key
+// with any input it was presented with before.
+func freshPredicate(line, out, otherLine string) string {
+	signs := func(o string) []string {
+		var l []string
+		f := strings.Fields(o)
+		if len(f) < 2 || f[0] != "ok" {
+			return nil
+		}
+		for _, c := range strings.Split(f[1], ",") {
+			if strings.HasPrefix(c, "sign:") {
+				l = append(l, c)
+			}
+		}
+		return l
+	}
+	a, b := signs(out), signs(goExec(otherLine))
+	seen := map[string]bool{}
+	for _, x := range a {
+		seen[x] = true
+	}
+	for _, y := range b {
+		if seen[y] {
+			return fmt.Sprintf("a signing key is asked to sign the same input under two different header nonces (not bound to the header's fresh randomness): %s — requests %s and %s", trunc(y, 200), trunc(line, 300), trunc(otherLine, 300))
+		}
+	}
+	return ""
 }
